@@ -259,7 +259,7 @@ def check_rmsd_case(chk, n, kind, sel, seed, failed):
                     chk.fail("rmsd-precentered-equals-oracle", wc, f"precentered=True, parallel={par}: md.rmsd = {g[i]:.7g}, oracle = {o:.7g}",
                              dict(inp, clause="precentered", parallel=par, frame_i=i), observed=float(g[i]), expected=o)
     if ok:
-        chk.ok(nontrivial=(n, kind, sel), sample={"n": n, "kind": kind, "sel": sel, "rmsd": [round(float(x), 6) for x in got], "worst_err_over_tol": round(worst, 3)})
+        chk.ok(nontrivial=(n, kind, sel), sample={"n": n, "kind": kind, "sel": sel, "rmsd": [round(float(x), 6) for x in got], "worst_err_over_tol": round(float(worst), 3)})
     else:
         failed.add(("rmsd", kind, sel))
 
@@ -342,11 +342,13 @@ def check_superpose_case(chk, n, kind, sel, seed, failed, extra_atoms=0):
             p = np.sqrt(3) * e
             if att ** 2 - o ** 2 > tol_msd(P[0], Qf)[0] + 2 * o * p + p * p:
                 ok = False
-                chk.fail("superpose-reference-frame-index", _diagnose(P[0], Qf, tx[0].astype(np.float64), X1, e) or wc,
+                diag = _diagnose(P[0], Qf, tx[0].astype(np.float64), X1, e)
+                # a diagnosed rotation-extraction failure is the same finding as under frame=1, not a frame-index defect
+                chk.fail("superpose-attains-minimum" if diag else "superpose-reference-frame-index", diag or wc,
                          f"frame={fr}: alignment atoms are {att:.7g} nm RMS from reference frame {fr}, optimum {o:.7g}", dict(inp, clause="frame", frame=fr),
                          observed=att, expected=o)
     if ok:
-        chk.ok(nontrivial=(n, kind, sel), sample={"n": n, "kind": kind, "sel": sel, "worst_over_tol": round(worst, 3)})
+        chk.ok(nontrivial=(n, kind, sel), sample={"n": n, "kind": kind, "sel": sel, "worst_over_tol": round(float(worst), 3)})
     else:
         failed.add(("superpose", kind, sel))
 
